@@ -27,6 +27,9 @@ func transMisc(paths []string) any {
 
 	fset, f = parseFile(filepath.Join(root, "internal/ebnf/parser/parser.go"))
 	out["predefs"] = stringMapVar(fset, f, "Predefs")
+
+	fset, f = parseFile(filepath.Join(root, "internal/ebnf/parser/spec/symbol_table.go"))
+	out["terminal_names"] = stringMapVar(fset, f, "terminalNames")
 	return out
 }
 
